@@ -61,6 +61,11 @@ func (g *OGen) ApplyPair() (orig, update M) {
 	if g.R.Chance(30) {
 		last["metadata"].(M)["annotations"] = g.StringMap([]string{"note", "owner"}, labelVals, 2)
 	}
+	// an earlier hook answer that carried a status (the create path records it verbatim in last-applied); later answers often drop it
+	lastHasStatus := g.R.Chance(15)
+	if lastHasStatus {
+		last["status"] = M{"ready": true}
+	}
 	// observed: last + drift + foreign fields + system metadata + status
 	o, isMap := g.J.Mutate(last, 1).(map[string]interface{})
 	if !isMap || g.R.Chance(60) {
@@ -117,6 +122,9 @@ func (g *OGen) ApplyPair() (orig, update M) {
 		if g.R.Chance(30) {
 			u["metadata"].(map[string]interface{})["labels"] = g.StringMap(labelKeys, labelVals, 2)
 		}
+	}
+	if lastHasStatus && g.R.Chance(70) {
+		delete(u, "status")
 	}
 	umd, ok := u["metadata"].(map[string]interface{})
 	if !ok {
